@@ -194,6 +194,14 @@ def mk_val_spelled(t, v, spell):
     k = kind(t)
     if spell == 'views':
         return mk_val(t, v)
+    if spell == 'wide':
+        # an integer view of ANOTHER width holding the number (when one can hold it) as the constructor argument
+        iv = int(v)
+        own = T.type_byte_length()
+        for w in (1, 2, 4, 8, 16, 32):
+            if w != own and 0 <= iv < (1 << (8 * w)) and (w > own or iv >= (1 << (8 * own)) or iv % 2):
+                return T(UINT_BY_W[w](iv))
+        return T(iv)
     if isinstance(t, str) or k in ('cont', 'union'):
         p = plain(t, v)
         return p if k in ('cont', 'union') else T(p)
@@ -559,7 +567,10 @@ def run_val(t, v):
         y = T.from_obj(o)
         o2 = json.loads(json.dumps(o))
         z = T.from_obj(o2)
-        return '%s/%s/%s/%d%d' % (txt, y.hash_tree_root().hex(), z.hash_tree_root().hex(), int(y == x), int(z == x))
+        # (equal roots are not enough: the imported value must be readable and show the same content)
+        same = to_val(t, y) == to_val(t, x) and to_val(t, z, 'iter') == to_val(t, x) and y.encode_bytes() == x.encode_bytes() \
+            and json.loads(json.dumps(z.to_obj())) == o2
+        return '%s/%s/%s/%d%d' % (txt, y.hash_tree_root().hex(), z.hash_tree_root().hex(), int(y == x and same), int(z == x))
     put('p.obj', E(obj))
 
     def obj2():
@@ -574,6 +585,19 @@ def run_val(t, v):
         return '%s/%s' % (y.hash_tree_root().hex(), z.hash_tree_root().hex())
     put('p.obj2', E(obj2))
     put('p.objjson', E(lambda: json.dumps(x.to_obj(), separators=(',', ':'))))
+
+    def objrev():
+        # the same mapping with every dict's keys in the opposite order (a JSON object is unordered)
+        def rev(o):
+            if isinstance(o, dict):
+                return {kk: rev(o[kk]) for kk in reversed(list(o.keys()))}
+            if isinstance(o, (list, tuple)):
+                return [rev(q) for q in o]
+            return o
+        y = T.from_obj(rev(x.to_obj()))
+        z = T.from_obj(json.loads(json.dumps(x.to_obj(), sort_keys=True)))
+        return '%s/%s' % (y.hash_tree_root().hex(), z.hash_tree_root().hex())
+    put('p.objrev', E(objrev))
     # equality / hash
     def eqs():
         y = mk_val(t, v)
@@ -747,6 +771,16 @@ def apply_op(t, x, op):
             x[i] = val
     elif k == 'setn':
         setattr(x, op[1], 5)
+    elif k == 'setneg':
+        # a NEGATIVE index, through the [] operator: read first (a read that succeeds is reported as a success of the
+        # whole op, which the model refuses), then written with a valid element
+        i = int(op[1])
+        try:
+            x[-i]
+            return
+        except Exception:
+            pass
+        x[-i] = boolean(int(op[2])) if tk in ('bv', 'bl') else elem_arg(t[1], op[2])
     elif k == 'setb':
         i = int(op[1])
         raw = bytes.fromhex(op[2][1:])
@@ -948,7 +982,9 @@ def run_dec(t, pre, body, post):
     s.seek(len(pre))
     decb = ''
     if not post and not pre:
-        decb = ';p.decb=%s' % E(lambda: to_val(t, T.decode_bytes(body)))
+        # (decode_bytes runs FIRST, on whatever state the previous cases left behind)
+        decb0 = E(lambda: to_val(t, T.decode_bytes(body)))
+        decb = ';p.decb=%s' % decb0
     try:
         y = T.deserialize(s, len(body))
     except RecursionError:
@@ -970,6 +1006,7 @@ def run_dec(t, pre, body, post):
     put('p.again', E(again))
     if not post and not pre:
         put('p.decb', E(lambda: to_val(t, T.decode_bytes(body))))
+        put('p.decb0', decb0)
     return ';'.join(out)
 
 
@@ -1173,7 +1210,17 @@ def run_tree(tr, cmds):
             g = int(c[1])
             trees = [n] + [mk_tree(x) for x in c[2:]]
             hist = list(enumerate(trees))
-            out.append('%d.hist=%s' % (k, EC(lambda: ','.join('%d:%s' % (key, hexr(x)) for key, x in get_target_history(hist, g)))))
+
+            def hq(h, gi):
+                return EC(lambda: ','.join('%d:%s' % (key, hexr(x)) for key, x in get_target_history(h, gi)))
+            r1 = hq(list(hist), g)
+            # the SAME history list queried for other positions first, then for g again: the answer does not depend on
+            # earlier queries
+            for g2 in (g ^ 1, g * 2, g >> 1, 3, g):
+                if g2 >= 1:
+                    hq(hist, g2)
+            r2 = hq(hist, g)
+            out.append('%d.hist=%s' % (k, r1 if r1 == r2 else 'DEPENDS-ON-EARLIER-QUERIES(%s|%s)' % (r1, r2)))
         elif op == 'piter':
             from remerkleable.readonly_iters import PackedIter
             T, depth, ln = mk_type(c[1]), int(c[2]), int(c[3])
